@@ -54,7 +54,7 @@ type Faults struct {
 	CallbackFailAt int  `json:"callbackFailAt"`
 	BreakAt        int  `json:"breakAt"`
 	CbErrKind      int  `json:"cbErrKind,omitempty"` // which value the failing callback returns (see CallbackErr)
-	IOKind         int  `json:"ioKind,omitempty"`    // 1: the reader also implements io.WriterTo and the writer io.StringWriter (code may take other paths for them); 2: the reader is also an io.Closer; 3: a *bytes.Reader; 4: an open regular file; 5: a *bufio.Reader around the fault-injecting reader; 6: an empty regular file opened write-only (Read fails with EBADF)
+	IOKind         int  `json:"ioKind,omitempty"`    // 1: the reader also implements io.WriterTo and the writer io.StringWriter (code may take other paths for them); 2: the reader is also an io.Closer; 3: a *bytes.Reader; 4: an open regular file; 5: a *bufio.Reader around the fault-injecting reader; 6: an empty regular file opened write-only (Read fails with EBADF); 8/9: a *bytes.Reader / regular file positioned behind an earlier (hostile) section the caller has already consumed
 	ErrKind        int  `json:"errKind,omitempty"`   // which well-known error the injected reader/writer error additionally wraps (see FaultErr)
 }
 
@@ -90,6 +90,7 @@ type Case struct {
 	Prog       []AddStep `json:"prog,omitempty"`
 	UseSub     int       `json:"useSub,omitempty"`     // >0: pass node[UseSub] (a non-root) instead of the root
 	PreOps     []string  `json:"preOps,omitempty"`     // From-Root only: operations run first on the SAME node tree, results ignored
+	ColorPre   bool      `json:"colorPre,omitempty"`   // the PreOps run with colours enabled (fatih/color.NoColor == false), as on a terminal
 	LateProg   []AddStep `json:"lateProg,omitempty"`   // From-Root walkiter only: Add calls made after the iterator was created and before it is ranged over
 	MidProg    []AddStep `json:"midProg,omitempty"`    // From-Root only: Add calls made after the PreOps and before the operation under test
 	RangeTwice bool      `json:"rangeTwice,omitempty"` // walkiter: the same iterator value is ranged over a second time
